@@ -292,3 +292,82 @@ func C11_Laws() {
 	nd.Assert(a == b, "C11/de-morgan/and")
 	nd.Assert(c == d, "C11/de-morgan/or")
 }
+
+var _ = reg("C11_Operands", C11_Operands)
+
+// operand expressions over @ of several kinds: comparisons, string
+// predicates, exists of a nested filter, nested connectives three levels
+// deep, and `is unknown` around an operand that fails non-suppressibly inside
+// a nested filter (the one way evaluation continues after such an error)
+var richOperands = []string{
+	"@.a == 1", "@.b > 0", "@.s starts with \"a\"", "@.s like_regex \"^a\"", "exists(@.a ? (@ > 0))",
+	"(@.a == 1 && (@.b > 0 || !(@.a == 2)))", "(@.a > @.b) is unknown", "(exists(@.arr ? (@ > $missing))) is unknown",
+	"((@.arr ? (@ == $missing)) == 1) is unknown", "exists(@.arr[*] ? (@ > 1))", "@.arr[*] > 1", "!(exists(@.b))",
+}
+
+// C11_Operands: && and || are commutative in value, double negation and De
+// Morgan hold, for every pair of operand expressions of the kinds above,
+// evaluated in a filter over @ (object and array-element items), both modes.
+func C11_Operands() {
+	mode := modePrefix()
+	x := richOperands[nd.Choice(len(richOperands))]
+	ys := richOperands
+	if !nd.Thorough() {
+		ys = []string{"@.a == 1", "@.b > 0", "(@.a > @.b) is unknown", "(exists(@.arr ? (@ > $missing))) is unknown"}
+	}
+	y := ys[nd.Choice(len(ys))]
+	leaf := nd.Spec{Kinds: nd.KFloat}
+	item := map[string]any{
+		"a": nd.JSON(nd.Spec{Kinds: nd.KFloat | nd.KString, StrLen: 1, ASCII: true}),
+		"b": nd.JSON(leaf),
+	}
+	if nd.Choice(2) == 1 {
+		item["s"] = nd.JSON(nd.Spec{Kinds: nd.KString | nd.KFloat, StrLen: 1, ASCII: true})
+	}
+	if nd.Choice(2) == 1 {
+		item["arr"] = []any{nd.JSON(leaf), nd.JSON(leaf)}
+	}
+	var doc any = item
+	pre := "$"
+	if nd.Choice(2) == 1 {
+		doc, pre = []any{item}, "$[*]"
+	}
+	sel := func(cond string) int {
+		r, err := parse(mode+pre+" ? ("+cond+")").Query(bg, doc)
+		if err != nil {
+			if hardErr(err) {
+				return oH
+			}
+			return oBad
+		}
+		if len(r) == 1 {
+			return oT
+		}
+		if len(r) == 0 {
+			return oF // false or unknown: the filter drops both
+		}
+		return oBad
+	}
+	tag := "C11/operands"
+	xy, yx := sel("("+x+") && ("+y+")"), sel("("+y+") && ("+x+")")
+	if xy != oH && yx != oH {
+		nd.Assert(xy == yx, tag+"/and-not-commutative")
+	}
+	xo, ox := sel("("+x+") || ("+y+")"), sel("("+y+") || ("+x+")")
+	if xo != oH && ox != oH {
+		nd.Assert(xo == ox, tag+"/or-not-commutative")
+	}
+	if n := sel("!(!(" + x + "))"); n != oH {
+		if p := sel(x); p != oH {
+			nd.Assert(n == p, tag+"/double-negation")
+		}
+	}
+	// De Morgan in the selected / not selected form: !(x && y) selects
+	// exactly when !x || !y does
+	if a, b := sel("!(("+x+") && ("+y+"))"), sel("!("+x+") || !("+y+")"); a != oH && b != oH {
+		nd.Assert(a == b, tag+"/de-morgan-and")
+	}
+	if a, b := sel("!(("+x+") || ("+y+"))"), sel("!("+x+") && !("+y+")"); a != oH && b != oH {
+		nd.Assert(a == b, tag+"/de-morgan-or")
+	}
+}
